@@ -186,6 +186,13 @@ def main(tier):
                 suf = "\n---\n".join(sufs)
                 lines.append(f"snap L100000 {seed} {hx(pre)} {hx(suf)}")
                 meta.append((pre, suf, seed))
+        # the restore target has been used before the snapshot is loaded (a short init script, a read, an earlier load): loading
+        # replaces its variables — nothing of the earlier state survives, whatever internal shape the map was in
+        INITS = ["armor = 3", "armor = 3; hp = 1; zz9 = [1]", "armor = 3; armor", "q1 = 1; q2 = 2; q3 = 3; q4 = 4; q5 = 5; q1 + q5", "func oldf() { 1 }; &oldc = 2", "armor = 3; `{armor}`"]
+        for (pre, suf, seed) in list(meta)[:: max(1, len(meta) // 40)]:
+            ini = r.choice(INITS)
+            lines.append(f"snap L100000 {seed} {hx(pre)} {hx(suf + chr(10) + '---' + chr(10) + '[armor ?? 77, zz9 ?? 78, q3 ?? 79, oldc ?? 80]')} {hx(ini)}")
+            meta.append((pre, suf + " (+ probe of names only the target's init script set; target init: " + ini + ")", seed))
         out = run.go_only("snapshot", lines, go_timeout=600)
         for (pre, suf, seed), (ln, g) in zip(meta, out):
             run.nontriv(("snap", pre, suf))
